@@ -1141,3 +1141,32 @@ Proof.
       exists rtbl. split; [exact HF|]. inversion HF; subst. unfold LW.table_write. rewrite V4, V5. unfold LW.write_tbl_v5. rewrite V5. cbn [negb].
       rewrite Hw. cbn [bind]. change (N.of_nat (length body)) with (UnitWr.blen body). rewrite Ei. reflexivity.
 Qed.
+
+
+(* ================================================================== (7) the unit-relative operands, end to end *)
+Lemma ops_marks_ge : forall ops pos i p, In (i, p) (ops_marks pos ops) -> pos <= p.
+Proof.
+  induction ops as [|o r IH]; intros pos i p H; cbn [ops_marks] in H; [destruct H|].
+  destruct o; try (apply IH in H; lia).
+  destruct H as [E|H]; [injection E as _ <-; lia|apply IH in H; lia].
+Qed.
+
+(* In the unit body written by the composed passes, the operand that a typed operation / call / parameter_ref naming
+   entry `en` embeds (C15 normal_form: entry_offset under the table the expressions were written with) is the
+   position at which write emitted the DIE of `en` (its WMark) minus the unit's offset: C11 offsets_exact o C15. *)
+Theorem glue_ref_operand_lemma dbg cx g st0 st ops fx :
+  gcalc dbg (wc_enc cx) (wc_be cx) (wc_lpv cx) (wc_unit_off cx) g st0 = Ok st ->
+  wc_entries cx = cs_entries st -> wc_codes cx = cs_codes st ->
+  gwrite_die dbg cx g (cs_off st0) = Ok (ops, fx) ->
+  NoDup (gdie_ids g) -> gdie_ok g ->
+  (forall j y, nth_error (cs_entries st0) j = Some y -> y = 0) ->
+  cs_off st0 + ops_len ops < 2 ^ 64 ->
+  0 < cs_off st0 -> wc_unit_off cx <= cs_off st0 ->
+  forall en p, In (N.to_nat en, p) (ops_marks (cs_off st0) ops) ->
+    OW.entry_offset dbg (Some (cx_uo cx)) en = Ok (p - wc_unit_off cx).
+Proof.
+  intros HC He Hc HW ND OK Z B P0 PU en p Hin.
+  destruct (glue_offsets_exact_lemma dbg cx g st0 st ops fx HC He Hc HW ND OK Z B) as [d [_ [_ [_ [_ [_ [_ [_ A]]]]]]]].
+  assert (G := ops_marks_ge _ _ _ _ Hin).
+  apply entry_offset_mark; [apply A; exact Hin|lia|lia].
+Qed.
